@@ -158,7 +158,9 @@ func dsFixedScopes() []*dsTy {
 			{"d", &dsProp{Ty: str()}},
 		}}}}}
 	}
-	return []*dsTy{mk(false, nil), mk(true, nil), mk(true, hx.StrP("switched off")), mk(false, hx.StrP("switched off"))}
+	// references into another namespace in every position (bound to an older provider first)
+	nsAll := &dsTy{T: "scope", Root: "N", Objs: []dsNamedObj{{"N", &dsTy{T: "obj", ID: "N", Props: append(dsNsProps(), dsNamedProp{"s", &dsProp{Ty: str()}})}}}}
+	return []*dsTy{mk(false, nil), mk(true, nil), mk(true, hx.StrP("switched off")), mk(false, hx.StrP("switched off")), nsAll}
 }
 
 func dsScopeGroupOf(s *dsSink, d *dsGen, t *dsTy) {
@@ -184,8 +186,23 @@ func dsScopeGroupOf(s *dsSink, d *dsGen, t *dsTy) {
 	first := hx.Canon(hx.Enc(desc))
 	var foreign *schema.ScopeSchema
 	if hasNS {
+		// the original has a history: it was bound to an older provider of the namespace first and
+		// is re-bound to the current one; the rebuilt copies only ever see the current one
 		foreign = dsForeignScope().buildScope()
-		orig.ApplyNamespace(foreign.Objects(), dsForeignNS)
+		older := dsForeignScopeV1().buildScope()
+		rebound := hx.Guard(func() hx.Result {
+			orig.ApplyNamespace(older.Objects(), dsForeignNS)
+			orig.ApplyNamespace(foreign.Objects(), dsForeignNS)
+			if err := orig.ValidateReferences(); err != nil {
+				return hx.ErrResult(err)
+			}
+			return hx.Result{R: "ok"}
+		})
+		if rebound.R != "ok" {
+			s.finding(dsFinding{Prop: "C09", What: "a scope with namespaced references cannot be bound to its namespace: " + rebound.R + " " + rebound.Msg, Cases: []int{id0}, Schema: t})
+			return
+		}
+		s.count("feature:rebound-namespace")
 	}
 	for _, leg := range dsLegs {
 		w, err := leg.conv(desc)
@@ -271,7 +288,7 @@ func dsBehaviour(s *dsSink, d *dsGen, t *dsTy, orig, rebuilt schema.Type, leg st
 	ft := t.forget()
 	var inputs []*hx.Val
 	for i := 0; i < 2; i++ {
-		inputs = append(inputs, d.g.Value(ft, hx.Env{}, 0))
+		inputs = append(inputs, dsSafeValue(d.g, ft))
 	}
 	// inputs built from the structure of the schema: everything supplied, only what is required
 	// supplied (so that defaults - also those of disabled properties - come into play), nothing
